@@ -178,10 +178,16 @@ def diff_digest(a, b):
     return None
 
 
+FREEZE = [False]  # freeze/unfreeze schedule: a parameter is frozen (requires_grad=False) exactly while it has no gradient
+
+
 def apply_event(opt, params, cfg, ev, t):
     if ev[0] == "set":
         seq.apply_set(opt, None, ev)
         return t
+    if FREEZE[0]:
+        for p, m in zip(params, ev[1]):
+            p.requires_grad_(bool(m))
     seq.set_grads(params, cfg, t, ev[1])
     opt.step()
     return t + 1
@@ -201,8 +207,16 @@ def count_tensors(o):
     return 0
 
 
-def check_history(cfg, hist, stops=None, double=False, alt=False):
+def check_history(cfg, hist, stops=None, double=False, alt=False, freeze=False):
     """Uninterrupted run A with a snapshot at every stop point; then every restore-and-continue run B."""
+    FREEZE[0] = bool(freeze)
+    try:
+        return _check_history(cfg, hist, stops, double, alt)
+    finally:
+        FREEZE[0] = False
+
+
+def _check_history(cfg, hist, stops=None, double=False, alt=False):
     import torch
 
     params, opt = seq.build(cfg)
@@ -476,6 +490,15 @@ def run_unit(unit):
                 res["nontrivial_count"] += max(0, len(hist) - 1)
                 if msgs:
                     res["violations"].append({"case": {"cfg": cfg, "hist": hist}, "msg": f"{msgs[0]} [cfg {brief(cfg)}]", "kind": msgs[0].split(":")[-1][:25]})
+                if not msgs and hist is steps and any(not all(m) for m in [unit["first"]] + list(rest)):
+                    # the same history under a freeze / unfreeze schedule (frozen while without gradient)
+                    m3, _, n3 = check_history(cfg, hist, freeze=True)
+                    res["evals"] += n3
+                    res["stats"]["restore_runs_frozen_params"] = res["stats"].get("restore_runs_frozen_params", 0) + n3
+                    if m3:
+                        res["violations"].append({"case": {"cfg": cfg, "hist": hist, "freeze": True}, "msg": f"{m3[0]} (parameters are frozen - requires_grad=False - while they have no gradient) [cfg {brief(cfg)}]", "kind": "freeze"})
+                if msgs:
+                    pass
                 elif not cfg.get("groups") and hist is steps and all(m == rest[0] for m in rest):
                     # same history, but the fresh optimizer is constructed with other restorable hyper-parameters
                     m2, _, n2 = check_history(cfg, hist, alt=True)
@@ -501,4 +524,6 @@ def replay(case):
         return check_ddp(case["cfg"], case["hist"], W, g, comm, cp)[0]
     if case.get("mustraise"):
         return must_raise(case["cfg"])[0]
+    if case.get("freeze"):
+        return check_history(case["cfg"], case["hist"], freeze=True)[0]
     return check_history(case["cfg"], case["hist"], double=not case.get("alt"), alt=bool(case.get("alt")))[0]
